@@ -62,6 +62,8 @@ def cfg_predicates(repo):
                     if a.group(1) in ('not', 'any', 'all'):
                         continue
                     atoms.add((a.group(1), a.group(2)))
+            if re.search(r'\bdebug_assert(_eq|_ne)?\s*!', text):
+                atoms.add(('debug_assertions', None))     # the macro expands to `if cfg!(debug_assertions) {..}`
     return atoms
 
 
@@ -199,6 +201,52 @@ def normalize_paths(raw):
     for tgt in sorted(ren, key=len, reverse=True):
         raw = re.sub(r'(?<![A-Za-z0-9_:])' + re.escape(tgt) + r'(?![A-Za-z0-9_])', ren[tgt], raw)
     return raw
+
+
+def toolchain_skew(repo):
+    """The analysed MIR comes from the nightly compiler, users build with stable.  Both compilers are asked for
+    their textual MIR (`--emit=mir`, type-checked program, nothing is run) and the multiset of call targets of every
+    function is compared: a call that resolves to a different method/impl under the two toolchains (library API
+    surface differences, autoref 'specialisation' probes, unstable-name collisions) shows up as a difference.
+    Returns a list of human-readable differences."""
+    import re, glob, collections
+    keep = ('PATH', 'HOME', 'CARGO_HOME', 'RUSTUP_HOME', 'TMPDIR', 'LANG', 'USER', 'TERM')
+    env = {k: v for k, v in os.environ.items() if k in keep}
+    env['CARGO_NET_OFFLINE'] = 'true'
+    tabs = {}
+    tmp = tempfile.mkdtemp(prefix='pkv-skew-')
+    try:
+        for tc in ('stable', 'nightly'):
+            td = os.path.join(tmp, tc)
+            cmd = ['cargo'] + (['+nightly'] if tc == 'nightly' else []) + [
+                'rustc', '--offline', '--lib', '--quiet', '--config', 'build.target-dir=%s' % json.dumps(td),
+                '--', '--emit=mir', '-Awarnings', '-Cdebug-assertions=on', '-Coverflow-checks=on']
+            p = subprocess.run(cmd, cwd=repo, env=env, capture_output=True, text=True)
+            files = glob.glob(os.path.join(td, 'debug', 'deps', '*.mir'))
+            if p.returncode != 0 or not files:
+                return ['the %s toolchain could not compile the crate: %s' % (tc, p.stderr[-300:])]
+            out = collections.defaultdict(collections.Counter)
+            cur = None
+            for line in open(files[0], encoding='utf-8', errors='replace'):
+                m = re.match(r'^(?:const )?fn (.*?)\(', line)
+                if m:
+                    cur = re.sub(r'src/[^>]*?:\d+:\d+: \d+:\d+', 'src', m.group(1))
+                    continue
+                m = re.search(r'= (.+?)\((?:.*)\) -> (?:\[return|unwind|bb)', line)
+                if m and cur:
+                    out[cur][re.sub(r'\s+', ' ', m.group(1))] += 1
+            tabs[tc] = out
+    finally:
+        shutil.rmtree(tmp, ignore_errors=True)
+    a, b = tabs['stable'], tabs['nightly']
+    diffs = []
+    for f in sorted(set(a) ^ set(b)):
+        diffs.append('function `%s` exists only in the %s MIR' % (f, 'stable' if f in a else 'nightly'))
+    for f in sorted(set(a) & set(b)):
+        if a[f] != b[f]:
+            diffs.append('in `%s` stable calls %s where nightly calls %s' % (
+                f, sorted((a[f] - b[f]).elements())[:3], sorted((b[f] - a[f]).elements())[:3]))
+    return diffs
 
 
 def extract(flavour='dev', repo=None, keep_json=None, spec=None):
